@@ -310,7 +310,7 @@ def histories(draw, feats, sizes):
             text, _ = write(s, style)
             props = s.allow_properties
         elif kind == 'malformed':
-            s, text0, f = draw(c07.cases(feats, sizes))
+            s, text0, f = draw(c07.cases(feats, sizes))[:3]
             from ..surface import render
             text = render(f[1], '\n', True) if f else text0
             props = s.allow_properties
